@@ -10,7 +10,7 @@
      parent1 c, anc n c        parent cell, n-fold ancestor of a cell multi-index *)
 From Coq Require Import List Arith Sorted.
 From Verif.lib Require Import FinSet.
-From Verif.C04 Require Import Model Proofs ProofsFun ProofsMesh ProofsQuery ProofsClosure.
+From Verif.C04 Require Import Model Proofs ProofsFun ProofsMesh ProofsQuery ProofsClosure Children ProofsChildren ProofsParents ProofsDisparity ProofsDisparityD.
 Import ListNotations.
 
 (* Invariant of every reachable state, for every dimension, degree, knot multiplicities,
@@ -138,17 +138,10 @@ Theorem admissible_iff_incidence : forall axes disp ops d,
 Proof. exact admissible_incidence_l. Qed.
 Print Assumptions admissible_iff_incidence.
 
-(* NOT PROVED: disparity_admissible
-     forall axes d ops, Forall axis_ok axes -> 1 <= d -> ops_valid (hs_init axes (Some d)) ops ->
-     (all calls with trunc = false) -> admissible axes (Some d) ops d.
-   Missing (and only this): that every reachable state satisfies cell_condition, by induction over the
-   calls using marking_closure_closed.  The induction step needs the nestedness of support
-   extensions across levels (cells of cell_support_extension(j,[c],k+1) are children of cells of
-   cell_support_extension(j,[c],k)), a statement about two-scale relations of B-splines with
-   arbitrary knot multiplicities that the integer model does not contain (it has no function
-   parents/children).  Not proved for d = 1 either: the same lemma is needed.  Covered by
-   exploration: the admissibility predicate is evaluated geometrically on the implementation's state
-   after every call of every history of the correspondence run (default marking). *)
+(* disparity_admissible itself is PROVED at the end of this file (for every finite d >= 1, default marking,
+   valid axes with all knot multiplicities >= 1); the truncated marking variant (refine(..., truncate=True))
+   is NOT covered by it: marking_closure_closed holds for it, but its neighbourhood is the parent of the
+   level-(l-d+1) support extension and the invariant I2d would have to be restated for that set. *)
 
 (* NOT PROVED (rational-matrix conjuncts, tie only): thb_partition_of_unity, thb_nonneg,
    hb_thb_inverse, hb_thb_same_space, hb_independent.  The model has no rational part;
@@ -217,3 +210,61 @@ Theorem function_support_extension_is_support_extension : forall axes disp ops,
    exists f c, In f fs /\ In c (support1 (msh st l) f) /\ In (anc (l - k) c) (support1 (msh st k) f')).
 Proof. exact fse_spec_l. Qed.
 Print Assumptions function_support_extension_is_support_extension.
+
+(* Function children (Children.v: the children of the 1-D function j on the dyadically refined axis are
+   the index range phi(j) .. phi(j+p+1)-(p+1); tensor product over the axes; tied exactly to
+   HMesh.function_children / function_parents / grand* of the implementation on every run).
+   Every child of a function of a valid mesh is a function of the refined mesh, and its support (in
+   refined cells) is contained in the parent's support refined once. *)
+Theorem children_inside_parent_support : forall axes f g, Forall axis_ok axes ->
+  In f (tp_functions (tpmesh_of axes)) ->
+  In g (children1 (tpmesh_of axes) f) ->
+  In g (tp_functions (tp_refine (tpmesh_of axes))) /\
+  forall c', In c' (support1 (tp_refine (tpmesh_of axes)) g) -> In (parent1 c') (support1 (tpmesh_of axes) f).
+Proof. exact children_inside_parent_support_l. Qed.
+Print Assumptions children_inside_parent_support.
+
+(* On every reachable state the children of a deactivated function of level k are active or
+   deactivated functions of level k+1 (the form C05's prolongation builder needs). *)
+Theorem children_closed : forall axes disp ops,
+  Forall axis_ok axes -> (forall d, disp = Some d -> 1 <= d) -> ops_valid (hs_init axes disp) ops ->
+  let st := run (hs_init axes disp) ops in
+  forall k f g, In f (DF st k) -> In g (function_children st k [f]) ->
+  In g (AF st (S k)) \/ In g (DF st (S k)).
+Proof. exact children_closed_l. Qed.
+Print Assumptions children_closed.
+
+(* Every function of the refined mesh is a child of some function of the mesh (valid axes whose knot
+   multiplicities are all >= 1). *)
+Theorem every_function_has_parent : forall axes g, Forall axis_ok axes -> Forall axis_pos axes ->
+  In g (tp_functions (tp_refine (tpmesh_of axes))) ->
+  exists f, In f (tp_functions (tpmesh_of axes)) /\ In g (children1 (tpmesh_of axes) f).
+Proof. exact parent_exists_l. Qed.
+Print Assumptions every_function_has_parent.
+
+(* Nestedness of support extensions across levels: a cell in the level-l support extension of a level-l
+   cell c has its parent in the level-(l-1) support extension of c. *)
+Theorem support_extensions_nested : forall axes, Forall axis_ok axes -> Forall axis_pos axes ->
+  forall st l c c', good2 (tpmesh_of axes) st -> 1 <= l -> l < numlevels st ->
+  inCSE st l c l c' -> inCSE st l c (l - 1) (parent1 c').
+Proof. exact support_extension_nested. Qed.
+Print Assumptions support_extensions_nested.
+
+(* DISPARITY 1, default marking (refine(marked) without truncate=True, refine_region): after every
+   history of valid calls no active function of level k is non-zero on an active cell of level > k + 1. *)
+Theorem disparity_admissible_d1 : forall axes, Forall axis_ok axes -> Forall axis_pos axes ->
+  forall ops, ops_valid (hs_init axes (Some 1)) ops -> Forall op_default ops ->
+  admissible axes (Some 1) ops 1.
+Proof. exact disparity_admissible_d1_l. Qed.
+Print Assumptions disparity_admissible_d1.
+
+(* DISPARITY, every finite d >= 1, default marking: after every history of valid calls no active function
+   of level k is non-zero on an active cell of level > k + d.  (Induction over the calls with the cell-level
+   invariants CCd / I2d of ProofsDisparityD.v, marking_closure_closed, support_extensions_nested,
+   every_function_has_parent and the activity characterisation.) *)
+Theorem disparity_admissible : forall axes, Forall axis_ok axes -> Forall axis_pos axes ->
+  forall d, 1 <= d ->
+  forall ops, ops_valid (hs_init axes (Some d)) ops -> Forall op_default ops ->
+  admissible axes (Some d) ops d.
+Proof. exact disparity_admissible_l. Qed.
+Print Assumptions disparity_admissible.
